@@ -453,4 +453,24 @@ theorem prepare_choice_none (fns : List (Entry × Bool)) (h : prepareChoice none
 /-- **priority order at request time**: the extensions of a list run once each, highest priority first. -/
 theorem run_order (l : RList) (hd : Desc l) :
     (runAll l).length = l.length ∧ l.Pairwise (fun a b => a.1 > b.1) := ⟨by simp [runAll], hd⟩
+
+/-- **predicate-bound Present extensions**: exactly the accepting ones run, each once, in list order (highest priority
+first when the list is in registry order) — not only the first, unlike Prepare -/
+theorem presentFns_spec (l : List (Entry × Bool)) :
+    (∀ t, t ∈ presentFns l ↔ ∃ e, (e, true) ∈ l ∧ e.2 = t) ∧
+    List.Sublist (presentFns l) (l.map (·.1.2)) ∧
+    (presentFns l).length = (l.filter (·.2)).length := by
+  refine ⟨?_, ?_, by simp [presentFns]⟩
+  · intro t
+    simp only [presentFns, List.mem_map, List.mem_filter]
+    constructor
+    · rintro ⟨⟨e, b⟩, ⟨hm, hb⟩, rfl⟩
+      simp only at hb
+      subst hb
+      exact ⟨e, hm, rfl⟩
+    · rintro ⟨e, hm, rfl⟩
+      exact ⟨(e, true), ⟨hm, rfl⟩, rfl⟩
+  · unfold presentFns
+    have : l.map (·.1.2) = (l.map id).map (·.1.2) := by simp
+    exact List.Sublist.map _ List.filter_sublist
 end Registry
